@@ -229,7 +229,7 @@ inline void genComp(Rng& r) {
 inline void generate(Rng& r, bool thorough, int K = 1) {
   auto Q = [&](long v) { return std::max<long>(1, v / K); };   // K slices: the orchestrating generate() runs the parts round-robin
 
-  long n = Q(thorough ? 40000 : 9000);
+  long n = Q(thorough ? 30000 : 9000);
   // constants of every ellipsoid of the strata
   { const double W = 1 / 298.257223563;
     c17isect::Ell es[] = {{6378137, W, 0}, {6378137, 0, 0}, {6.4e6, 0, 0}, {6378137, 0.015, 0}, {6378137, -0.015, 0}, {6378137, W, 1}, {6.4e6, 1 / 50.0, 1}, {6.4e6, -1 / 50.0, 1},
